@@ -258,9 +258,9 @@ Print Assumptions C08_exec_total.
    (C08_refines_tilde_partial), r (C08_refines_replace_partial), p P of one-line character-wise text and of
    line-wise text (C08_refines_put_chars_partial, C08_refines_put_lines_partial), i a with plain typed text
    (C08_refines_insert_plain_partial), Y (C08_refines_Y_partial), s C with plain typed text
-   (C08_refines_s_C_plain_partial).  The references are the small functions ref_span, ref_line_delete,
+   (C08_refines_s_C_plain_partial), >> << (C08_refines_shift_partial).  The references are the small functions ref_span, ref_line_delete,
    ref_tilde, ref_replace, ref_put_off, ref_put_row, ref_ins_off of ViDefs.v on the BODY of the cursor line.
-   MISSING: S J and d c y g~ gu gU < > with arbitrary motions, I A o O, inserts containing editing keys, newlines or only
+   MISSING: S J and d c y g~ gu gU with arbitrary motions (< > with a motion other than the doubled key), I A o O, inserts containing editing keys, newlines or only
    blanks (autoindent), puts of character-wise text containing a newline, and the composition over whole
    programs; the sticky column and the window top are not part of the statements.  Those commands are mirrored
    only and tied to the independent reference Ref8 and to the code by the correspondence run. *)
@@ -365,6 +365,19 @@ Theorem C08_refines_s_C_plain_partial : forall rows e (toend : bool) y cnt typed
   v_row (s_vs e1) = v_row s /\ v_off (s_vs e1) = o + slen typed - 1.
 Proof. exact refines_change_plain. Qed.
 Print Assumptions C08_refines_s_C_plain_partial.
+(* >> / << with a count: every line from the cursor row to row + n - 1 (clamped) gets one tab in front unless it is
+   empty (>>) / loses its first character if that is a blank (<<) -- shift_line of ViDefs.v, a function of the
+   line alone; registers untouched; the cursor goes to the first non-blank of the first line *)
+Theorem C08_refines_shift_partial : forall rows e (right : bool) cnt e1 l0,
+  let b := s_buf e in let s := s_vs e in
+  buf_wf b -> cursor_ok b (v_row s) (v_off s) -> getl b (v_row s) = Some l0 -> 0 <= cnt ->
+  exec1 rows (COp 0%N cnt (if right then Ogt else Olt) 0 TDbl []) e = Some e1 ->
+  let r2 := Z.min (v_row s + Z.max 1 cnt - 1) (blen b - 1) in
+  let b' := firstn (Z.to_nat (v_row s)) b ++ map (shift_line right) (rows_between b (v_row s) (r2 + 1)) ++ skipn (Z.to_nat (r2 + 1)) b in
+  s_buf e1 = b' /\ s_regs e1 = s_regs e /\ v_row (s_vs e1) = v_row s /\
+  v_off (s_vs e1) = ren_noeol (getl b' (v_row s)) (lbuf_indents b' (v_row s)).
+Proof. exact refines_shift. Qed.
+Print Assumptions C08_refines_shift_partial.
 Local Open Scope N_scope.
 
 Example C08_nonvacuous :
